@@ -449,6 +449,12 @@ def analyse_flush_hash(ctx, F, fn):
             if t[0] == "call" and len(t[2]) == 1:
                 if is_code_call(F, t[1], RANK) and is_getter_of_item(F, t[2][0], loop, RANK):
                     return codes[rk]
+                if is_code_call(F, t[1], RANK):
+                    # the code of a constant rank (`u8::from(Rank::Deuce) - u8::from(rank)`)
+                    a0 = P.strip(t[2][0])
+                    nm_ = a0[2] if a0[0] == "enumc" else (a0[1].rsplit("::", 1)[-1] if a0[0] == "agg" and not a0[2] and a0[1].startswith("adt:" + RANK + "::") else None)
+                    if nm_ in codes:
+                        return codes[nm_]
                 if P.is_widening_from(t[1]):
                     return fold(t[2][0], rk)
             return None
